@@ -83,6 +83,12 @@ def build_body(vals):
             val = struct.pack('!HBB', 16388, 71, 4) + bytes([10, 0, 0, 9, 0]) + tlv
             attrs = bytes([0x80, 14, len(val)]) + val
         return 2, struct.pack('!HH', 0, len(attrs)) + attrs
+    if shape == 'upd-max':
+        # an UPDATE of the largest (or nearly the largest) legal size, P['size'] octets with its header, made of an
+        # ORIGIN with a symbolic value and an unknown optional transitive attribute as filler
+        fill = P['size'] - 19 - 4 - 4 - 4
+        attrs = bytes([0x40, 1, 1, v[0]]) + bytes([0xd0, 99, fill // 256, fill % 256]) + bytes(fill)
+        return 2, struct.pack('!HH', 0, len(attrs)) + attrs
     if shape == 'unknown-type':
         # a well-framed message whose type octet is not one the agent knows; v[0] is the type
         t = v[0]
@@ -241,6 +247,9 @@ def obligations(tier, seed):
             out.append(ob('C10/%s/%s/n=%d/close-completes' % (S.STATE_NAMES[st], shape, n), 'ob_contain',
                           {'state': st, 'shape': shape, 'n': n, 'deliver_close': True}, covers=['delivered'],
                           cap=200 if quick else 600))
+    for size in ((4096,) if quick else (4095, 4096)):
+        out.append(ob('C10/ESTABLISHED/upd-max/size=%d' % size, 'ob_contain',
+                      {'state': S.ESTABLISHED, 'shape': 'upd-max', 'n': 1, 'size': size}, covers=['delivered'], cap=280 if quick else 600))
     for unreach in (False, True):
         for n in ((4, 5) if quick else (4, 5, 6)):
             out.append(ob('C10/ESTABLISHED/upd-mp-bgpls/unreach=%s/n=%d' % (unreach, n), 'ob_contain',
